@@ -23,7 +23,7 @@ CHECKS = {
   "C04": ("exploration",
           "stateful property-based testing (proptest op sequences + interpreter): model map offset -> submitted bytes checked after every step of store/remove/delete/vanish/reopen histories that cross file-growth steps",
           "Generated histories against a real Store in a scratch directory; every offset ever returned is re-read after every step (byte equality, pairwise distinct), untouched regular events are re-read by id, across growth and real reopen (LMDB environment closed and reopened).",
-          "Debug-assertion build (2048-byte chunks) in quick; release (4 MiB) added in thorough.",
+          "Runs in the chk profile (debug assertions: 2048-byte event-map chunks) and, with a smaller share of the cases, in the release profile (4 MiB chunks, with events of hundreds of KiB).",
           "DESIGN.md section 4 C04"),
   "C05": ("exploration",
           "stateful property-based testing: generated history then generated filters from the same colliding pools; oracle = independent NIP-01 predicate over the retrievable set + screening table; newest-k multiset check; scraper-gate condition",
